@@ -125,7 +125,10 @@ func algMisuses() []algMisuse {
 		return err, ""
 	})
 	add("matrixInverse.Run", "default", "non-square", func(e *env) (error, string) { x, err := matrixInverse.Run(rect(e)); return err, dimsOf(x) })
-	add("matrixInverse.Run", "default", "empty", func(e *env) (error, string) { x, err := matrixInverse.Run(e.matS(gen.Dense, 0, 0)); return err, dimsOf(x) })
+	add("matrixInverse.Run", "default", "empty", func(e *env) (error, string) {
+		x, err := matrixInverse.Run(e.matS(gen.Dense, 0, 0))
+		return err, dimsOf(x)
+	})
 	add("msqrt.Run", "default", "non-square", func(e *env) (error, string) { x, err := msqrt.Run(rect(e)); return err, dimsOf(x) })
 	add("msqrtInv.Run", "default", "non-square", func(e *env) (error, string) { x, err := msqrtInv.Run(tall(e)); return err, dimsOf(x) })
 	add("gramSchmidt.Run", "default", "more-columns-than-rows", func(e *env) (error, string) { q, _, err := gramSchmidt.Run(wide(e)); return err, dimsOf(q) })
